@@ -219,6 +219,7 @@ if __name__ == "__main__":
         "connectedness(p) is the function of the registered open conns that swarm.connectednessUnlocked computes (Connected if a non-limited open conn, else Limited if any open conn); IsClosed()-but-still-registered conns are not modelled",
         "swarm level (SwModel.v): conns are named in the order Swarm.addConn is called and admitted in that order; Conn.Close is only called on admitted conns; a transport conn is closed only through Conn.Close / the rejection path of addConn (no remote close), so IsClosed() implies removed from the table; the atomic steps of addConn / doClose / Swarm.close are the ones listed at the top of SwModel.v; conformance of kind-8 traces to SwModel is not checked by acceptance (monitor only) - the tie is the emitter-level acceptance plus the proved refinement swarm LTS -> emitter LTS",
         "stream level (StModel.v): AcceptStream hands out inbound streams only while the loop spawned by c.start() runs; the stream goroutine holds one Swarm ref until addStream returned, a registered stream one until it is closed / reset, doClose resets every registered stream before it spawns the notification goroutine; addStream succeeds only before the transport Close begins and fails only after doClose nil-ed the stream table; the resource manager never refuses an inbound stream; a ConnsToPeer read is one atomic step (conns.RLock) and does not overlap Swarm.close's nil-ing section",
+        "fault point: the error value returned by the transport conn's Close / CloseWithError is NOT part of the model - a conn whose transport Close returns an error is closed and delisted all the same (steps STCloseB / STCloseE of SwModel.v do not depend on it), so every clause judges such a conn like any other; the harness gives it to random and directed conns",
         "whole-swarm runs over TCP (kind 7: several notifiees, inbound streams) are judged by their own monitor only",
     ]
     standard_flow(ctx, dict(
@@ -248,7 +249,10 @@ if __name__ == "__main__":
              "loop and given to a recording stream handler that resets them or leaves them to doClose, all schedules of 1-conn and budgeted "
              "schedules of 2-conn configurations with Conn.Close / Swarm.Close / Connected closing the conn; a ConnsToPeer READ of every conn "
              "before every driver stimulus, judged against the notifications seen so far, first of all in configurations whose Disconnected / "
-             "Connected handler is held on its gate; a run in which a bubble goroutine blocks non-durably is written as a stuck case by a watchdog) "
+             "Connected handler is held on its gate; a run in which a bubble goroutine blocks non-durably is written as a stuck case by a watchdog; FAULT POINT: "
+             "transport conns whose Close returns an error (directed: one conn with Conn.Close / Swarm.Close / Connected closing it, two conns "
+             "to one peer of every direct/limited class pair closed in all orders; random conns with probability 1/3); the Swarm.Close that ends "
+             "every run is judged too: if it does not return the run is written with Swarm.Close.call + Stuck appended) "
              "and, under the real scheduler, addConn stalled right after the insert into conns.m (the harness holds "
              "s.directConnNotifs) racing Swarm.Close / Conn.Close. "
              "WHOLE-SWARM runs (kind 7, monitor only, real scheduler): a real Swarm with a TCP listener, two recording Notifiees "
